@@ -292,7 +292,7 @@ fn occurrences(hay: &[u8], needle: &[u8]) -> Vec<usize> {
 /// are not canonical scalars (order, order+1, ff..ff).  Each occurrence is replaced by each bad string.
 #[allow(clippy::too_many_arguments)]
 fn container<T>(out: &mut Out, ty: &str, v: &T, ser: &dyn Fn(&T) -> Option<Vec<u8>>, de: &dyn Fn(&[u8]) -> Option<T>, has_header: bool, my_id: &str,
-                embedded: &[Vec<u8>], bad_scalars: &[Vec<u8>])
+                embedded: &[Vec<u8>], bad_scalars: &[Vec<u8>], fixed: &[Vec<u8>])
 where
     T: PartialEq + serde::Serialize + for<'de> serde::Deserialize<'de>,
 {
@@ -310,6 +310,8 @@ where
                            "accepted": r.is_some()});
         if let Some(x) = r {
             e["same"] = json!(&x == v);
+            // a second byte string for the same value
+            e["alias"] = json!(&x == v && input != bytes.as_slice());
             if let Some(re) = ser(&x) {
                 e["reenc"] = bytes_json(&re);
             }
@@ -317,6 +319,25 @@ where
         out.ev(e);
     };
     emit(out, "valid", &bytes);
+    // fixed-size fields (scalars, elements, signatures) travel length-prefixed: one byte shorter (the prefix
+    // adjusted), or with the prefix alone lowered, must not decode
+    for fx in fixed.iter().chain(embedded.iter()) {
+        for at in occurrences(&bytes, fx) {
+            // (16 bytes and more: a shorter pattern preceded by its own length is as likely a vector count)
+            if at >= 1 && bytes[at - 1] as usize == fx.len() && fx.len() >= 16 {
+                for cut in [1usize, 2, fx.len() / 2, fx.len() - 1] {
+                    if cut == 0 || cut >= fx.len() {
+                        continue;
+                    }
+                    let mut b = bytes[..at - 1].to_vec();
+                    b.push((fx.len() - cut) as u8);
+                    b.extend_from_slice(&bytes[at..at + fx.len() - cut]);
+                    b.extend_from_slice(&bytes[at + fx.len()..]);
+                    emit(out, "short_field", &b);
+                }
+            }
+        }
+    }
     for e in embedded {
         for at in occurrences(&bytes, e) {
             for bad in bad_scalars {
@@ -443,6 +464,19 @@ where
             i += 1;
         }
         route(out, "escaped", serde_json::from_str::<T>(&esc).ok());
+        for fx in fixed.iter().chain(embedded.iter()) {
+            let h = crate::suite::hex(fx);
+            if h.len() >= 4 && s.contains(&h) {
+                for cut in [2usize, 4, h.len() / 2 / 2 * 2] {
+                    if cut == 0 || cut >= h.len() {
+                        continue;
+                    }
+                    let t = s.replacen(&h, &h[..h.len() - cut], 1);
+                    out.ev(json!({"op": "dec", "ty": ty, "class": "container", "form": "json", "tag": "short_field",
+                                  "accepted": serde_json::from_str::<T>(&t).is_ok()}));
+                }
+            }
+        }
         for e in embedded {
             let h = crate::suite::hex(e);
             if s.contains(&h) {
@@ -613,18 +647,28 @@ pub fn run<C: Suite>(seed: u64, heavy: bool, f: &mut dyn Write) -> (u64, u64) {
     let pok = r1p.proof_of_knowledge().serialize().expect("pok");
     let pok_sc = vec![pok[pok.len() - scalar_valid.len()..].to_vec()];
     let r2_sc = vec![r2p.signing_share().serialize()];
-    container(&mut out, "SigningCommitments", &comms[&id1], &|v| v.serialize().ok(), &|b| SigningCommitments::<C>::deserialize(b).ok(), true, id, &no, bs);
-    container(&mut out, "SigningNonces", &nonces[&id1], &|v| v.serialize().ok(), &|b| SigningNonces::<C>::deserialize(b).ok(), true, id, &non_sc, bs);
-    container(&mut out, "SigningPackage", &pkg, &|v| v.serialize().ok(), &|b| SigningPackage::<C>::deserialize(b).ok(), true, id, &no, bs);
-    container(&mut out, "SecretShare", &ss1, &|v| v.serialize().ok(), &|b| SecretShare::<C>::deserialize(b).ok(), true, id, &share_sc, bs);
-    container(&mut out, "KeyPackage", &kp1, &|v| v.serialize().ok(), &|b| KeyPackage::<C>::deserialize(b).ok(), true, id, &share_sc, bs);
-    container(&mut out, "PublicKeyPackage", &pkp, &|v| v.serialize().ok(), &|b| PublicKeyPackage::<C>::deserialize(b).ok(), true, id, &no, bs);
+    // fixed-size non-scalar fields
+    let comm_fx = vec![comms[&id1].hiding().serialize().expect("nc"), comms[&id1].binding().serialize().expect("nc")];
+    let kp_fx = vec![elem_valid.clone(), pkp.verifying_key().serialize().expect("vk")];
+    let pkp_fx = vec![pkp.verifying_key().serialize().expect("vk")];
+    let cc_fx: Vec<Vec<u8>> = ss1.commitment().serialize().expect("cc");
+    let r1_fx = {
+        let mut v: Vec<Vec<u8>> = r1p.commitment().serialize().expect("cc");
+        v.push(pok.clone());
+        v
+    };
+    container(&mut out, "SigningCommitments", &comms[&id1], &|v| v.serialize().ok(), &|b| SigningCommitments::<C>::deserialize(b).ok(), true, id, &no, bs, &comm_fx);
+    container(&mut out, "SigningNonces", &nonces[&id1], &|v| v.serialize().ok(), &|b| SigningNonces::<C>::deserialize(b).ok(), true, id, &non_sc, bs, &comm_fx);
+    container(&mut out, "SigningPackage", &pkg, &|v| v.serialize().ok(), &|b| SigningPackage::<C>::deserialize(b).ok(), true, id, &no, bs, &comm_fx);
+    container(&mut out, "SecretShare", &ss1, &|v| v.serialize().ok(), &|b| SecretShare::<C>::deserialize(b).ok(), true, id, &share_sc, bs, &cc_fx);
+    container(&mut out, "KeyPackage", &kp1, &|v| v.serialize().ok(), &|b| KeyPackage::<C>::deserialize(b).ok(), true, id, &share_sc, bs, &kp_fx);
+    container(&mut out, "PublicKeyPackage", &pkp, &|v| v.serialize().ok(), &|b| PublicKeyPackage::<C>::deserialize(b).ok(), true, id, &no, bs, &pkp_fx);
     let legacy = PublicKeyPackage::<C>::new(pkp.verifying_shares().clone(), *pkp.verifying_key(), None);
-    container(&mut out, "PublicKeyPackageLegacy", &legacy, &|v| v.serialize().ok(), &|b| PublicKeyPackage::<C>::deserialize(b).ok(), true, id, &no, bs);
-    container(&mut out, "dkg::round1::Package", &r1p, &|v| v.serialize().ok(), &|b| dkg::round1::Package::<C>::deserialize(b).ok(), true, id, &pok_sc, bs);
-    container(&mut out, "dkg::round1::SecretPackage", &r1s, &|v| v.serialize().ok(), &|b| dkg::round1::SecretPackage::<C>::deserialize(b).ok(), false, id, &no, bs);
-    container(&mut out, "dkg::round2::Package", &r2p, &|v| v.serialize().ok(), &|b| dkg::round2::Package::<C>::deserialize(b).ok(), true, id, &r2_sc, bs);
-    container(&mut out, "dkg::round2::SecretPackage", &r2s, &|v| v.serialize().ok(), &|b| dkg::round2::SecretPackage::<C>::deserialize(b).ok(), false, id, &no, bs);
+    container(&mut out, "PublicKeyPackageLegacy", &legacy, &|v| v.serialize().ok(), &|b| PublicKeyPackage::<C>::deserialize(b).ok(), true, id, &no, bs, &pkp_fx);
+    container(&mut out, "dkg::round1::Package", &r1p, &|v| v.serialize().ok(), &|b| dkg::round1::Package::<C>::deserialize(b).ok(), true, id, &pok_sc, bs, &r1_fx);
+    container(&mut out, "dkg::round1::SecretPackage", &r1s, &|v| v.serialize().ok(), &|b| dkg::round1::SecretPackage::<C>::deserialize(b).ok(), false, id, &no, bs, &no);
+    container(&mut out, "dkg::round2::Package", &r2p, &|v| v.serialize().ok(), &|b| dkg::round2::Package::<C>::deserialize(b).ok(), true, id, &r2_sc, bs, &no);
+    container(&mut out, "dkg::round2::SecretPackage", &r2s, &|v| v.serialize().ok(), &|b| dkg::round2::SecretPackage::<C>::deserialize(b).ok(), false, id, &no, bs, &no);
     // serde form of a bare signature share and of a signature
     {
         let z = zs[&id1];
@@ -641,6 +685,18 @@ pub fn run<C: Suite>(seed: u64, heavy: bool, f: &mut dyn Write) -> (u64, u64) {
             .map(|x| x.serialize().ok() == sig.serialize().ok());
         out.ev(json!({"op": "dec", "ty": "Signature", "class": "container", "form": "json", "tag": "valid",
                       "accepted": ok.is_some(), "same": ok.unwrap_or(false)}));
+        if let Some(s) = &js {
+            // "<hex>" one, two and half of the bytes shorter, and empty
+            let inner = s.trim_matches('"');
+            for cut in [2usize, 4, inner.len() / 2 / 2 * 2, inner.len()] {
+                if cut == 0 || cut > inner.len() {
+                    continue;
+                }
+                let t = format!("\"{}\"", &inner[..inner.len() - cut]);
+                out.ev(json!({"op": "dec", "ty": "Signature", "class": "container", "form": "json", "tag": "short_field",
+                              "accepted": serde_json::from_str::<Signature<C>>(&t).is_ok()}));
+            }
+        }
     }
 
     // ---- toy: the whole 2^16 input space of scalars and elements
